@@ -177,6 +177,17 @@ func (r *FnRun) builtin(st *State, x *ssa.Call, bi *ssa.Builtin, args []Val) Val
 	if bi.Name() == "append" {
 		return r.builtinAppend(st, x, args)
 	}
+	switch bi.Name() {
+	case "real", "imag":
+		if sv, ok := args[0].(*StructVal); ok && len(sv.F) == 2 {
+			if bi.Name() == "real" {
+				return sv.F[0]
+			}
+			return sv.F[1]
+		}
+	case "complex":
+		return &StructVal{N: []string{"re", "im"}, F: []Val{args[0], args[1]}}
+	}
 	panic(unsupported("builtin " + bi.Name()))
 }
 
